@@ -133,10 +133,12 @@ func smaller(a, b Tape) bool {
 	return an < bn || (an == bn && as < bs)
 }
 
+var debugNonreproDone bool
+
 // minimiseAndReport confirms the violation in fresh processes, shrinks the
 // tape while the same violation class recurs, replays the result once more in
 // a fresh process and returns the replay file contents.
-func minimiseAndReport(bt *builtTree, prop, tier string, seed uint64, f *found) *replayFile {
+func minimiseAndReport(bt *builtTree, prop, tier string, seed uint64, f *found) (*replayFile, bool) {
 	lc := f.lane
 	class := f.viol.Class
 	// 1. the original tape must reproduce (three attempts): otherwise the
@@ -153,9 +155,9 @@ func minimiseAndReport(bt *builtTree, prop, tier string, seed uint64, f *found) 
 			cur = eff
 		}
 	}
-	if !confirmed {
-		infra("nondeterministic replay: lane %s run %d reported [%s] %s but its tape does not reproduce it in three fresh processes",
-			lc.Name, f.run, class, f.viol.Detail)
+	if !confirmed || (os.Getenv("VERIF_DEBUG_NONREPRO") != "" && !debugNonreproDone) {
+		debugNonreproDone = true // self-test of the isolation fallback: pretend once that the tape did not reproduce
+		return nil, false
 	}
 	// 2. shrink: sweeps over both sections with halving block sizes; after an
 	// accepted edit the sweep continues where it is (no restart).
@@ -297,7 +299,7 @@ func minimiseAndReport(bt *builtTree, prop, tier string, seed uint64, f *found) 
 			rf.Trace = traceFromStderr(stderr)
 		}
 	}
-	return rf
+	return rf, true
 }
 
 func raceReport(stderr string) string {
